@@ -134,6 +134,51 @@ def sign_transaction(
     )
 
 
+def create_spend_transaction_from_largest_outputs(
+    wallet: Wallet,
+    coinstate: CoinState,
+    value: int,
+    miners_fee: int,
+    output_public_key: SECP256k1PublicKey,
+    change_address: SECP256k1PublicKey,
+) -> Transaction:
+    # used by create_spend_transaction (which knows that the balance suffices) when its own choice of inputs does not fit
+    # in a block; marks nothing as spent.
+    unspent_transaction_outs = coinstate.at_head.unspent_transaction_outs
+    public_key_balances = coinstate.at_head.public_key_balances
+
+    candidates = [
+        output_reference
+        for public_key in wallet.keypairs.keys() if SECP256k1PublicKey(public_key) in public_key_balances
+        for output_reference in public_key_balances[SECP256k1PublicKey(public_key)].output_references
+        if output_reference not in wallet.spent_transaction_outputs]
+
+    candidates.sort(key=lambda output_reference: -unspent_transaction_outs[output_reference].value)
+
+    collected_value = 0
+    inputs = []
+
+    for output_reference in candidates:
+        inputs.append(Input(output_reference, None))
+        collected_value += unspent_transaction_outs[output_reference].value
+
+        if collected_value >= value + miners_fee:
+            break
+
+    outputs = [Output(value, output_public_key)]
+
+    if collected_value != value + miners_fee:
+        outputs.append(Output(collected_value - (value + miners_fee), change_address))
+
+    transaction = sign_transaction(wallet, unspent_transaction_outs, Transaction(inputs, outputs))
+
+    if len(transaction.serialize()) > MAX_BLOCK_SIZE:
+        # even the fewest inputs do not fit; refuse rather than hand out a transaction every node will reject.
+        raise Exception("Transaction too large (%d inputs): spend a smaller amount at a time" % len(inputs))
+
+    return transaction
+
+
 def create_spend_transaction(
     wallet: Wallet,
     coinstate: CoinState,
@@ -173,9 +218,11 @@ def create_spend_transaction(
                 transaction = sign_transaction(wallet, unspent_transaction_outs, Transaction(inputs, outputs))
 
                 if len(transaction.serialize()) > MAX_BLOCK_SIZE:
-                    # a transaction that does not fit in a block can never be mined; refuse (nothing has been marked as
-                    # spent yet) rather than hand out a transaction every node will reject.
-                    raise Exception("Transaction too large (%d inputs): spend a smaller amount at a time" % len(inputs))
+                    # a transaction that does not fit in a block can never be mined. The outputs above are taken in the
+                    # order in which the ledger lists them; taking the largest ones first needs the fewest inputs.
+                    transaction = create_spend_transaction_from_largest_outputs(
+                        wallet, coinstate, value, miners_fee, output_public_key, change_address)
+                    inputs = transaction.inputs
 
                 # only mark the outputs as spent once we actually have a transaction that spends them; marking them
                 # while collecting would make a failed attempt ("Insufficient balance") block later, affordable, spends.
